@@ -389,7 +389,10 @@ func checkICCPng(p *Program, r *Report) {
 	r.Check(absentOK && nAbsent > 0, rule, "absent", pos, "without an iCCP chunk the accessor yields (nil, nil)", why)
 	// name loop bound 80 / 79-byte limit
 	nameOK := false
-	for _, f := range []*ssa.Function{fn} {
+	for f := range reachableFns(fn) {
+		if !inMeta(f) || !strings.HasSuffix(f.Pkg.Pkg.Path(), "pngmeta") {
+			continue
+		}
 		for _, iv := range loopIndVars(f) {
 			if c, ok := constInt(iv.Limit); ok && c == 80 {
 				nameOK = true
@@ -492,10 +495,66 @@ func checkICCJpeg(p *Program, r *Report) {
 				if cv, isC := b.ConstInt(); isC && c.Op == "==" && ix >= 0 && ix < 12 && cv == int64(ident[ix]) {
 					matched[ix] = true
 				}
-				if cv, isC := b.ConstInt(); isC && c.Op == "!=" && ix == 12 && cv == 0 {
-					numNonZero = true
+			}
+			// the same fact stated with bytes.HasPrefix(Data, "ICC_PROFILE\0")
+			for ci, c := range out.St.conds {
+				if ci >= ev.CondIdx || c.Op != "prefix" {
+					continue
 				}
-				if ix == 12 && (c.Op == "<=") {
+				sl, _ := c.A.(*SliceVal)
+				pf, _ := c.B.(*SliceVal)
+				if sl == nil || pf == nil || sl.Base == nil || segOf(sl.Base.Key) != seg || !sl.Lo.Equal(formInt(0)) {
+					continue
+				}
+				if els, ok := e.sliceElems(out.St, pf); ok && len(els) == len(ident) {
+					all := true
+					for i, el := range els {
+						f, _ := el.(*Form)
+						if cv, isC := f.ConstInt(); f == nil || !isC || cv != int64(ident[i]) {
+							all = false
+						}
+					}
+					if all {
+						for i := range ident {
+							matched[int64(i)] = true
+						}
+					}
+				}
+			}
+			// bounds on the sequence number Data[12] of that segment, in any
+			// spelling: n != 0, n >= 1, n > 0, !(n < 1), 1 <= n …; n <= count, count >= n, !(count < n) …
+			for ci, c := range out.St.conds {
+				if ci >= ev.CondIdx {
+					break
+				}
+				a, okA := c.A.(*Form)
+				b, okB := c.B.(*Form)
+				if !okA || !okB {
+					continue
+				}
+				op := c.Op
+				isNum := func(f *Form) bool {
+					an, isA := f.SingleAtom()
+					if !isA {
+						return false
+					}
+					s2, ix, ok := segDataRef(e, an)
+					return ok && s2 == seg && ix == 12
+				}
+				if !isNum(a) && isNum(b) {
+					a, b = b, a
+					op = map[string]string{"<": ">", "<=": ">=", ">": "<", ">=": "<=", "==": "==", "!=": "!="}[op]
+				}
+				if !isNum(a) {
+					continue
+				}
+				if cv, isC := b.ConstInt(); isC {
+					if (op == "!=" && cv == 0) || (op == ">=" && cv == 1) || (op == ">" && cv == 0) {
+						numNonZero = true
+					}
+					continue
+				}
+				if op == "<=" {
 					numLeq = true
 				}
 			}
@@ -552,6 +611,33 @@ func checkICCJpeg(p *Program, r *Report) {
 				if ev.Kind == "loop-call" && strings.HasSuffix(ev.Fn, "(*bytes.Buffer).Write") {
 					wr = ev
 				}
+			}
+			var app *Event
+			for k := range out.St.events {
+				ev := &out.St.events[k]
+				if ev.Kind == "loop-append" {
+					app = ev
+				}
+			}
+			if wr == nil && app != nil && len(app.Args) == 4 {
+				// profile = append(append(empty, slot0...), slot1...) … in ascending slot order
+				k, _ := app.Args[0].(*Form)
+				first, _ := app.Args[1].(*Form)
+				latch, _ := app.Args[3].(*SliceVal)
+				init, _ := app.Recv.(*SliceVal)
+				okA := k != nil && first != nil && first.Equal(formInt(0)) && latch != nil && latch.Base != nil && latch.Base.Fn == "append" && len(latch.Base.Args) == 2
+				if okA {
+					kk := valKey(latch.Base.Args[1])
+					okA = strings.Contains(kk, "index(make#") && strings.Contains(kk, k.Key())
+				}
+				// the accumulator starts empty
+				okA = okA && init != nil && (init.Nil || (init.Len != nil && init.Len.Equal(formInt(0))))
+				sv, _ := md.ICCData.(*SliceVal)
+				okA = okA && sv != nil && sv.Base != nil && sv.Base.Fn == "loop-append" && len(sv.Base.Args) == 2 && valKey(sv.Base.Args[0]) == valKey(app.Recv)
+				if !okA {
+					asmOK, why = false, "the returned profile is not the slots 0..count−1 appended in ascending order to one initially empty slice"
+				}
+				continue
 			}
 			good := sum != nil && wr != nil
 			if good {
